@@ -53,10 +53,17 @@ VALID = {"bool": [b"true", b"false"], "string": [b"", b"a", b"ohkami", b"a+b", b
          "str": [b"", b"a", b"ohkami", b"\xe3\x81\x82", b"a+b"], "char": [b"a", b"%E3%81%82", b"\xe3\x81\x82", b"%41", b"%F0%9F%98%80", b"+"], "unit": [b""]}
 
 
+def esc_some(rng, b, p=0.12):
+    """a client may escape any byte of a value: one byte of `b` written as %XX (either letter case)"""
+    if not b or rng.random() >= p: return b
+    i = rng.randrange(len(b))
+    return b[:i] + (b'%%%02X' if rng.random() < 0.5 else b'%%%02x') % b[i] + b[i + 1:]
+
+
 def gen_valid(rng, t):
-    if isinstance(t, str): return rng.choice(VALID[t])
-    if "uint" in t: return str(rng.choice([0, 1, 7, 2 ** t["uint"] - 1, rng.randrange(2 ** t["uint"])])).encode()
-    if "sint" in t: return str(rng.choice([0, -1, 2 ** (t["sint"] - 1) - 1, -2 ** (t["sint"] - 1), rng.randrange(-2 ** (t["sint"] - 1), 2 ** (t["sint"] - 1))])).encode()
+    if isinstance(t, str): return esc_some(rng, rng.choice(VALID[t])) if t == "bool" else rng.choice(VALID[t])
+    if "uint" in t: return esc_some(rng, str(rng.choice([0, 1, 7, 2 ** t["uint"] - 1, rng.randrange(2 ** t["uint"])])).encode())
+    if "sint" in t: return esc_some(rng, str(rng.choice([0, -1, 2 ** (t["sint"] - 1) - 1, -2 ** (t["sint"] - 1), rng.randrange(-2 ** (t["sint"] - 1), 2 ** (t["sint"] - 1))])).encode())
     if "option" in t: return b"" if rng.random() < 0.3 else gen_valid(rng, t["option"])
     if "newtype" in t: return gen_valid(rng, t["newtype"])
     if "enum" in t:
@@ -190,6 +197,7 @@ def corpus():
         rt_case(1, {"struct": [["a", "none"], ["b", {"b": True}], ["c", {"some": S("")}]]}),          # known finding: Some("") is written `c=` and read as None
         rt_case(4, {"struct": [["v", {"seq": [S("")]}], ["n", {"seq": []}]]}),                        # known finding: [""] is written `v=` and read as []
         rt_case(5, {"map": [[S(""), S("x")]]}),                                                       # known finding: the empty key is written `=x` and refused
+        de_case(0, b'name=a&id=%37'), de_case(0, b'name=a&id=%31%32'), de_case(1, b'b=%74rue&a=&c='), de_case(6, b'c=x&i=%2D5'), de_case(4, b'v=a&n=1,%32,3'),          # escaped digits, sign, letters of a bool (were refused)
         de_case(0, b'name=a%20b&id=7'), de_case(0, b'id=7&zz=1&name=x'), de_case(1, b'b=true&a=&c='), de_case(5, b'a=1&b=%26'),
         {'case': {'tid': 100, 'query': b'k=v&a=%41%20b&x=&novalue&=e&j=%E3%81%82&b=%FF'.hex()}, 'stream': 'query_iter'},
     ]
@@ -238,6 +246,8 @@ def spec_value(t, raw):
     """the value a raw (still encoded) text denotes for type t; raises ValueError when it denotes none / outside this spec"""
     if t == "string":
         s = pct_decode(raw); s.decode('utf-8'); return {"s": s.hex()}
+    if t == "bool" or (isinstance(t, dict) and ("uint" in t or "sint" in t)):
+        raw = pct_decode(raw)          # a client may escape any byte: `%35` is `5`, `%2D7` is `-7`, `%74rue` is `true` (RFC 3986 2.1; was refused before fix 2c45ee6)
     if t == "bool":
         if raw in (b"true", b"false"): return {"b": raw == b"true"}
         raise ValueError
